@@ -1153,7 +1153,7 @@ GenModel make_model(vh::Rng& rng, int c)
         o << "WELSPECS\n";
         for (auto* w : ws)
             o << " '" << w->name << "' '" << w->group << "' " << w->i + 1 << " " << w->j + 1 << " " << (rng.coin(3, 4) ? num(2000.0 + rng.range(0, 30)) : std::string("1*"))
-              << " '" << (w->producer ? "OIL" : (w->injphase == 'W' ? "WATER" : "GAS")) << "' " << (rng.coin() ? "0" : num(10.0 * rng.range(1, 20)))
+              << " '" << (w->producer ? (rng.coin(2, 3) ? "OIL" : (rng.coin() ? "GAS" : "WATER")) : (w->injphase == 'W' ? "WATER" : "GAS")) << "' " << (rng.coin() ? "0" : num(10.0 * rng.range(1, 20)))
               << " 'STD' 'SHUT' '" << (rng.coin() ? "YES" : "NO") << "' /\n";
         o << "/\nCOMPDAT\n";
         for (auto* w : ws) for (int cq = 0; cq < w->nc; ++cq) {
